@@ -910,7 +910,7 @@ export class BigIntRuntype extends BaseRuntype {
   }
 
   protected describeTypeExpr(_ctx: DescribeContext): string {
-    return "BigInt";
+    return "bigint";
   }
   schema(ctx: SchemaContext): JSONSchema7 {
     throw new Error(buildSchemaErrorMessage(ctx, "Cannot generate JSON Schema for BigInt"));
